@@ -164,6 +164,7 @@ func TestC13(t *testing.T) {
 		return
 	}
 	avoid := pbt.AvoidTags("C13", "C11")
+	c.SetRecheck(func(k any) []pbt.Violation { return evalC13(k.(c13Case)) })
 	c.ReplayKnown(t, func(raw json.RawMessage) []pbt.Violation {
 		var k c13Case
 		_ = json.Unmarshal(raw, &k)
@@ -304,6 +305,7 @@ func TestC14(t *testing.T) {
 		return
 	}
 	avoid := pbt.AvoidTags("C14", "C11", "C13")
+	c.SetRecheck(func(k any) []pbt.Violation { return evalC14(k.(c14Case)) })
 	c.ReplayKnown(t, func(raw json.RawMessage) []pbt.Violation {
 		var k c14Case
 		_ = json.Unmarshal(raw, &k)
@@ -318,6 +320,7 @@ func TestC14(t *testing.T) {
 		if n%10 == 1 || pbt.Thorough() {
 			k.Subset = drawSubset(rt)
 			c.Class(fmt.Sprintf("cli-subset-size-%d", len(k.Subset)))
+			c.Class("cli-subset:" + strings.Join(k.Subset, "+"))
 		}
 		c.Eval()
 		feats := p.Features()
@@ -398,6 +401,7 @@ func TestC08(t *testing.T) {
 		return
 	}
 	avoid := pbt.AvoidTags("C08", "C11", "C13")
+	c.SetRecheck(func(k any) []pbt.Violation { return evalC08(k.(c08Case)) })
 	c.ReplayKnown(t, func(raw json.RawMessage) []pbt.Violation {
 		var k c08Case
 		_ = json.Unmarshal(raw, &k)
